@@ -706,11 +706,11 @@ theorem accept_sim {y : State} {a : A} (hI : MInv cfg y) (hS : Sim cfg y a) :
     the last of them in the round's log (the periodic section) -/
 theorem go_sim : ∀ (reads : List Read) {y : State} {a : A}, MInv cfg y → Sim cfg y a → (∀ rd ∈ reads, rd.uid ≠ 0) →
     ∃ segs a', (readAll cfg reads y).out = y.out ++ flatSegs segs ∧ NoRdSegs segs ∧
-      MInv cfg (readAll cfg reads y) ∧ Sim cfg (readAll cfg reads y) a' ∧ a'.recvT = a.recvT ∧ a'.recvR = a.recvR ∧
+      MInv cfg (readAll cfg reads y) ∧ Sim cfg (readAll cfg reads y) a' ∧ a'.recvT = a.recvT ∧ a'.recvR = a.recvR ∧ a'.errs = a.errs ∧
       ∀ T, NoRd T → acksOf T = [] →
         goCore cfg (applyDepartures a (if segs = [] then T else [])) reads (addLast segs T) = applyDepartures a' T
   | [], y, a, hI, hS, _ => by
-    refine ⟨[], a, (by simp [readAll, flatSegs]), (fun _ h => by cases h), hI, hS, rfl, rfl, fun T _ _ => ?_⟩
+    refine ⟨[], a, (by simp [readAll, flatSegs]), (fun _ h => by cases h), hI, hS, rfl, rfl, rfl, fun T _ _ => ?_⟩
     simp [goCore]
   | rd :: rest, y, a, hI, hS, h0 => by
     have h0' : ∀ r ∈ rest, r.uid ≠ 0 := fun r hr => h0 r (by simp [hr])
@@ -719,8 +719,8 @@ theorem go_sim : ∀ (reads : List Read) {y : State} {a : A}, MInv cfg y → Sim
     | none =>
       have hy : readOne cfg y rd = y := by unfold readOne; simp [hm]
       rw [hy]
-      obtain ⟨segs, a', ho, hn, hI', hS', hrT, hrR, hgo⟩ := go_sim rest hI hS h0'
-      refine ⟨segs, a', ho, hn, hI', hS', hrT, hrR, fun T hT hA => ?_⟩
+      obtain ⟨segs, a', ho, hn, hI', hS', hrT, hrR, hrE, hgo⟩ := go_sim rest hI hS h0'
+      refine ⟨segs, a', ho, hn, hI', hS', hrT, hrR, hrE, fun T hT hA => ?_⟩
       rw [← hgo T hT hA]
       generalize (if segs = [] then T else []) = L
       conv => lhs; unfold goCore
@@ -740,9 +740,9 @@ theorem go_sim : ∀ (reads : List Read) {y : State} {a : A}, MInv cfg y → Sim
     | some m =>
       obtain ⟨e, am, ho1, hne, hget, halive, hS1⟩ := read_sim ok hfuel hI hS rd m hm (h0 rd (by simp))
       have hI1 := minv_readOne ok hfuel hI rd
-      obtain ⟨segs', a', ho, hn, hI', hS', hrT, hrR, hgo⟩ := go_sim rest hI1 hS1 h0'
+      obtain ⟨segs', a', ho, hn, hI', hS', hrT, hrR, hrE, hgo⟩ := go_sim rest hI1 hS1 h0'
       refine ⟨(rd.uid, e) :: segs', a', ?_, ?_, hI', hS', by rw [hrT, applyDepartures_eq]; rfl,
-        by rw [hrR, applyDepartures_eq]; rfl, fun T hT hA => ?_⟩
+        by rw [hrR, applyDepartures_eq]; rfl, by rw [hrE, applyDepartures_eq]; rfl, fun T hT hA => ?_⟩
       · rw [ho, ho1]; simp [flatSegs]
       · intro p hp
         rcases List.mem_cons.mp hp with rfl | hp
@@ -796,7 +796,7 @@ theorem pre_sim {x : State} {a : A} (hI : MInv cfg x) (hS : Sim cfg x a) (hx : x
       MInv cfg (ioStep cfg (envStep x r) r.accept r.writable (r.reads.filter (fun rd => ((envStep x r).find rd.uid).isSome))) ∧
       Sim cfg (ioStep cfg (envStep x r) r.accept r.writable (r.reads.filter (fun rd => ((envStep x r).find rd.uid).isSome))) a' ∧
       RB (envStep x r) (ioStep cfg (envStep x r) r.accept r.writable (r.reads.filter (fun rd => ((envStep x r).find rd.uid).isSome))) zeroX ∧
-      a'.recvT = a.recvT ∧ a'.recvR = a.recvR ∧
+      a'.recvT = a.recvT ∧ a'.recvR = a.recvR ∧ a'.errs = a.errs ∧
       ∀ T, NoRd T → acksOf T = [] →
         goCore cfg (applyDepartures (roundEnv a r) (preM ++ if segs = [] then T else [])) (roundReads a r) (addLast segs T) =
           applyDepartures a' T := by
@@ -814,6 +814,7 @@ theorem pre_sim {x : State} {a : A} (hI : MInv cfg x) (hS : Sim cfg x a) (hx : x
   generalize ha1 : ({ a with now := a.now + r.dt, fail := (r.failSet.filter (·.1 ≤ a.nAccepted)).foldl (fun fl (p : Nat × Option FailMode) => setFail fl p.1 p.2) a.fail } : A) = a1 at hS1
   have hr1T : a1.recvT = a.recvT := by subst ha1; rfl
   have hr1R : a1.recvR = a.recvR := by subst ha1; rfl
+  have hr1E : a1.errs = a.errs := by subst ha1; rfl
   have hrE : roundEnv a r =
       (let a2 := if r.accept then { a1 with nAccepted := a1.nAccepted + 1, mods := a1.mods ++ [{ uid := a1.nAccepted + 1 }] } else a1
        if r.accept || !reads.isEmpty then
@@ -845,6 +846,7 @@ theorem pre_sim {x : State} {a : A} (hI : MInv cfg x) (hS : Sim cfg x a) (hx : x
     generalize ha2 : (if r.accept = true then ({ a1 with nAccepted := a1.nAccepted + 1, mods := a1.mods ++ [{ uid := a1.nAccepted + 1 }] } : A) else a1) = a2 at hSA
     have hr2T : a2.recvT = a1.recvT := by subst ha2; split <;> rfl
     have hr2R : a2.recvR = a1.recvR := by subst ha2; split <;> rfl
+    have hr2E : a2.errs = a1.errs := by subst ha2; split <;> rfl
     -- the writable set
     generalize hw : (if reads.isEmpty = true then [] else List.filter (fun x => (List.map (fun x => x.uid) xA.mods).contains x) r.writable) = wl
     generalize hwa : (if reads.isEmpty = true then []
@@ -856,18 +858,19 @@ theorem pre_sim {x : State} {a : A} (hI : MInv cfg x) (hS : Sim cfg x a) (hx : x
       rw [e1]
       have := sim_w hSA wa
       exact ⟨this.now, this.tT, this.tR, this.tI, this.seq, this.nacc, this.uids, this.alive, this.fail, this.pubT, this.pubR⟩
-    obtain ⟨segs, a', ho, hn, hI', hS', hrT, hrR, hgo⟩ := go_sim ok hfuel reads hIW hSW h0'
-    refine ⟨preM, segs, a', by rw [ho]; show xA.out ++ _ = _; rw [hoA], hnA, hn, hI', hS', ?_, ?_, ?_, fun T hT hA => ?_⟩
+    obtain ⟨segs, a', ho, hn, hI', hS', hrT, hrR, hrE, hgo⟩ := go_sim ok hfuel reads hIW hSW h0'
+    refine ⟨preM, segs, a', by rw [ho]; show xA.out ++ _ = _; rw [hoA], hnA, hn, hI', hS', ?_, ?_, ?_, ?_, fun T hT hA => ?_⟩
     · exact (hrbA.trans0 (rb_same (s' := { xA with wlist := wl }) rfl rfl rfl)).trans0 (readAll_rb ok hfuel hna hord reads hIW.top)
     · rw [hrT, applyDepartures_eq]; show a2.recvT = _; rw [hr2T, hr1T]
     · rw [hrR, applyDepartures_eq]; show a2.recvR = _; rw [hr2R, hr1R]
+    · rw [hrE, applyDepartures_eq]; show a2.errs = _; rw [hr2E, hr1E]
     · rw [dep_append]; exact hgo T hT hA
   · have hC' : (r.accept || !reads.isEmpty) = false := by simpa using hC
     simp only [hC', Bool.false_eq_true, if_false]
     simp only [Bool.or_eq_false_iff, Bool.not_eq_false'] at hC'
     have hre : reads = [] := by cases reads with | nil => rfl | cons _ _ => simp at hC'
     simp only [hC'.1, Bool.false_eq_true, if_false]
-    refine ⟨[], [], a1, by simp [flatSegs, hx1], NoRd.nil, (fun _ h => by cases h), hI1, hS1, RB.refl x1, hr1T, hr1R, fun T _ _ => ?_⟩
+    refine ⟨[], [], a1, by simp [flatSegs, hx1], NoRd.nil, (fun _ h => by cases h), hI1, hS1, RB.refl x1, hr1T, hr1R, hr1E, fun T _ _ => ?_⟩
     subst hre
     simp [goCore]
 
@@ -877,16 +880,14 @@ omit ok hfuel in
 /-- **the periodic section keeps the simulation**: `a7` is the abstract state before `Spec.tail` (the table already
     carries the departures of the section's events `T`, the receive tallies `rT`, `rR` are bounded with respect to the
     state `x2` before the section) -/
-theorem tail_sim {x2 : State} {a' : A} (hidle : x2.inTraffic = false) (hd : UidsDistinct x2) (hS : Sim cfg x2 a')
-    (rT rR : List ((Nat × Int) × Nat))
+theorem tail_sim {x2 : State} {a' : A} (hidle : x2.inTraffic = false) (hS : Sim cfg x2 a')
+    (T : List Ev) (hE : EvE x2 (ticks cfg x2) T) (rT rR : List ((Nat × Int) × Nat))
     (hrT : ∀ q ∈ rT, q.2 ≤ handled (sinceTick .timingTick x2.hist) q.1.2)
     (hrR : ∀ q ∈ rR, q.2 ≤ handled (sinceTick .trafficTick x2.hist) q.1.2) :
-    ∃ T, (ticks cfg x2).out = x2.out ++ T ∧ NoRd T ∧
-      Sim cfg (ticks cfg x2) (tailU cfg { a' with mods := depMods a'.mods (closes T), recvT := rT, recvR := rR }) ∧
-      RecvOK (ticks cfg x2) (tailU cfg { a' with mods := depMods a'.mods (closes T), recvT := rT, recvR := rR }) := by
-  obtain ⟨T, hE⟩ := ticks_ev cfg hd
+    Sim cfg (ticks cfg x2) (tailU cfg { a' with mods := depMods a'.mods (closes T), recvT := rT, recvR := rR }) ∧
+    RecvOK (ticks cfg x2) (tailU cfg { a' with mods := depMods a'.mods (closes T), recvT := rT, recvR := rR }) := by
   obtain ⟨mk, hh, hmk, ht1, ht2, hnow, hbuf, hid, htT, htR, hseq, htI⟩ := ticks_acc cfg x2 hidle
-  refine ⟨T, hE.out, hE.nord, ?_, ?_⟩
+  refine ⟨?_, ?_⟩
   · generalize ha7 : ({ a' with mods := depMods a'.mods (closes T), recvT := rT, recvR := rR } : A) = a7
     have f := tailU_fields cfg a7
     obtain ⟨f1, f2, f3, f4, f5, f6, f7, f8, f9, f10, f11, f12, f13, f14, f15⟩ := f
@@ -940,6 +941,190 @@ theorem tail_sim {x2 : State} {a' : A} (hidle : x2.inTraffic = false) (hd : Uids
         have hn : Mark.trafficTick ∉ mk := fun hc => h2 (ht2.mp hc)
         intro q hq
         exact Nat.le_trans (hrR q hq) (handled_since_mono _ mk _ hn _)
+
+/-! ## one whole round -/
+
+omit ok hfuel in
+theorem sim_of_noErr {x : State} {a b : A} (h : b.noErr = a.noErr) (hs : Sim cfg x a) : Sim cfg x b := by
+  rw [eq_of_noErr h]
+  exact ⟨hs.now, hs.tT, hs.tR, hs.tI, hs.seq, hs.nacc, hs.uids, hs.alive, hs.fail, hs.pubT, hs.pubR⟩
+
+omit ok hfuel in
+theorem recvOK_of_noErr {x : State} {a b : A} (h : b.noErr = a.noErr) (hs : RecvOK x a) : RecvOK x b := by
+  rw [eq_of_noErr h]; exact ⟨hs.t, hs.r⟩
+
+omit ok hfuel in
+theorem acksOf_nil_of_quiet : ∀ (T : List Ev), dataSends (fun b => b == .ack) T = [] → acksOf T = []
+  | [], _ => rfl
+  | e :: T, h => by
+    have hsplit : dataSends (fun b => b == .ack) (e :: T) = dataSends (fun b => b == .ack) [e] ++ dataSends (fun b => b == .ack) T :=
+      dataSends_append _ [e] T
+    rw [hsplit] at h
+    have h1 := (List.append_eq_nil_iff.mp h).1
+    have h2 := acksOf_nil_of_quiet T (List.append_eq_nil_iff.mp h).2
+    have e1 : acksOf (e :: T) = acksOf [e] ++ acksOf T := acksOf_append [e] T
+    rw [e1, h2]
+    cases e with
+    | send u c f =>
+      cases hb : (f.body == .ack) with
+      | false => simp [acksOf, sends, hb]
+      | true => simp [dataSends, hb] at h1; exact absurd (by simpa using hb) h1
+    | _ => rfl
+
+/-- the round function of the driver's `modelRun`: the log starts afresh -/
+def stepR (cfg : Cfg) (x : State) (r : Round) : State := step cfg { x with out := [] } r
+
+/-- the invariant between the model state and the abstract state of the Spec after the same rounds -/
+structure RInv (cfg : Cfg) (x : State) (a : A) : Prop where
+  inv : MInv cfg x
+  sim : Sim cfg x a
+  recv : RecvOK x a
+
+/-- rounds the generator produces: the manager's own table entry (uid 0) is never "read from" -/
+def RoundOK (r : Round) : Prop := ∀ rd ∈ r.reads, rd.uid ≠ 0
+
+/-- what `Spec.round` leaves before its periodic section, on the model's own events of the round -/
+structure PreTail (cfg : Cfg) (x : State) (a : A) (r : Round) (x2 : State) (T : List Ev) (a7 : A) (lastIO : List Ev) : Prop where
+  step : stepR cfg x r = ticks cfg x2
+  ev : EvE x2 (ticks cfg x2) T
+  inv2 : MInv cfg x2
+  pre : (roundPre cfg a r (stepR cfg x r).out).noErr = a7.noErr
+  pre18 : (roundPre cfg a r (stepR cfg x r).out).e18 = a.e18
+  last : lastEvs (stepR cfg x r).out = lastIO ++ T
+  io : ∃ pfx, x2.out = pfx ++ lastIO
+
+theorem round_pre {x : State} {a : A} (h : RInv cfg x a) (hna : MgrNotAll cfg) (hord : OrderGood cfg) (r : Round)
+    (hr : RoundOK r) :
+    ∃ x2 T a' rT rR lastIO,
+      PreTail cfg x a r x2 T { a' with mods := depMods a'.mods (closes T), recvT := rT, recvR := rR } lastIO ∧
+      Sim cfg x2 a' ∧
+      (∀ q ∈ rT, q.2 ≤ handled (sinceTick .timingTick x2.hist) q.1.2) ∧
+      (∀ q ∈ rR, q.2 ≤ handled (sinceTick .trafficTick x2.hist) q.1.2) := by
+  have hI0 : MInv cfg ({ x with out := [] } : State) := minv_same ok hfuel h.inv rfl rfl rfl rfl rfl rfl rfl rfl
+  have hS0 : Sim cfg ({ x with out := [] } : State) a :=
+    ⟨h.sim.now, h.sim.tT, h.sim.tR, h.sim.tI, h.sim.seq, h.sim.nacc, h.sim.uids, h.sim.alive, h.sim.fail, h.sim.pubT, h.sim.pubR⟩
+  obtain ⟨preM, segs, a', ho, hnp, hns, hI2, hS2, hrb, heT, heR, heE, hgo⟩ := pre_sim ok hfuel hI0 hS0 rfl hna hord r hr
+  generalize hx2 : ioStep cfg (envStep ({ x with out := [] } : State) r) r.accept r.writable
+    (r.reads.filter (fun rd => ((envStep ({ x with out := [] } : State) r).find rd.uid).isSome)) = x2 at ho hI2 hS2 hrb
+  have hstep : stepR cfg x r = ticks cfg x2 := by
+    unfold stepR step
+    have : ({ x with out := [] } : State).crashed.isSome = false := by
+      show x.crashed.isSome = false; rw [h.inv.top.good.ok]; rfl
+    simp only [this, Bool.false_eq_true, if_false]
+    rw [← hx2]
+  obtain ⟨T, hE⟩ := ticks_ev cfg hI2.k.distinct
+  have hqa : acksOf T = [] := by
+    obtain ⟨ext, hoe, hq⟩ := ticks_QI cfg (tag_ack cfg) (fun _ _ _ _ _ _ => rfl) x2 (fun _ _ => rfl) (fun _ _ _ _ => rfl) (fun _ _ _ => rfl)
+    have : ext = T := by have := hE.out; rw [hoe] at this; exact List.append_cancel_left this
+    subst this
+    exact acksOf_nil_of_quiet _ hq
+  have hevs : (stepR cfg x r).out = preM ++ flatSegs segs ++ T := by rw [hstep, hE.out, ho]
+  have hsp : splitRd (preM ++ flatSegs segs ++ T) = (preM ++ (if segs = [] then T else []), addLast segs T) := by
+    rw [List.append_assoc, splitRd_noRd preM hnp, splitRd_flat segs hns T hE.nord]
+  -- the tallies of manager-originated frames
+  let pieces : List (List Ev) := preM :: segs.dropLast.map (·.2)
+  let rT := if segs = [] then a'.recvT else pieces.foldl noteRecv a'.recvT
+  let rR := if segs = [] then a'.recvR else pieces.foldl noteRecv a'.recvR
+  let lastIO : List Ev := match segs.getLast? with | some sg => sg.2 | none => preM
+  have hcore : roundCore cfg a r (stepR cfg x r).out =
+      { a' with mods := depMods a'.mods (closes T), recvT := rT, recvR := rR } := by
+    rw [hevs]
+    unfold roundCore
+    rw [hsp]
+    dsimp only
+    rw [hgo T hE.nord hqa, addLast_isEmpty, addLast_dropLast]
+    by_cases hse : segs = []
+    · subst hse
+      simp only [List.isEmpty_nil, if_true, rT, rR]
+      rw [applyDepartures_eq]
+    · have hne : segs.isEmpty = false := by cases segs with | nil => exact absurd rfl hse | cons _ _ => rfl
+      simp only [hne, Bool.false_eq_true, if_false, hse, List.append_nil, rT, rR]
+      rw [noteAll_eq, applyDepartures_eq]
+  refine ⟨x2, T, a', rT, rR, lastIO, ⟨hstep, hE, hI2, ?_, ?_, ?_, ?_⟩, hS2, ?_, ?_⟩
+  · rw [(q18_roundPre cfg a r _).1, hcore]
+  · rw [(q18_roundPre cfg a r _).2, hcore]
+    show a'.errs.filter _ = a.errs.filter _
+    rw [heE]
+  · rw [hevs]
+    unfold lastEvs
+    rw [hsp]
+    dsimp only
+    rw [addLast_getLast]
+    cases hgl : segs.getLast? with
+    | none =>
+      have : segs = [] := by cases segs with | nil => rfl | cons p l => simp [List.getLast?_cons] at hgl
+      simp [this, lastIO]
+    | some sg => simp [lastIO, hgl]
+  · rw [ho]
+    cases hgl : segs.getLast? with
+    | none => exact ⟨[], by simp [lastIO, hgl, (by cases segs with | nil => rfl | cons p l => simp [List.getLast?_cons] at hgl : segs = []), flatSegs]⟩
+    | some sg =>
+      obtain ⟨l', rfl⟩ : ∃ l', segs = l' ++ [sg] := by
+        rcases List.eq_nil_or_concat segs with rfl | ⟨l', x, rfl⟩
+        · simp at hgl
+        · simp at hgl; subst hgl; exact ⟨l', by simp⟩
+      exact ⟨preM ++ flatSegs l' ++ [.rd sg.1], by simp [lastIO, hgl, flatSegs]⟩
+  all_goals
+    obtain ⟨ext, mk, hrbe, hbd⟩ := hrb
+    have hext : ext = preM ++ flatSegs segs := by
+      have h1 := hrbe.out
+      have h2 : (envStep ({ x with out := [] } : State) r).out = [] := rfl
+      rw [h2, ho] at h1; simpa using h1.symm
+    have hidle : (envStep ({ x with out := [] } : State) r).inTraffic = false := h.inv.stat.idle
+    have hmarks := hrbe.marks
+    rw [hidle] at hmarks hbd
+    have hhist : x2.hist = mk ++ x.hist := hrbe.hist
+  · intro q hq
+    rw [hhist, sinceTick_marks hmarks _ (by intro t b e; cases e), handled_append]
+    have hmsc : msc q.1.1 q.1.2 pieces.flatten ≤ handled mk q.1.2 := by
+      have h1 := hbd q.1.1 q.1.2
+      simp only [zeroX, Nat.add_zero] at h1
+      have h2 : msc q.1.1 q.1.2 pieces.flatten ≤ msc q.1.1 q.1.2 ext := by
+        rw [hext]
+        simp only [pieces, List.flatten_cons, msc_append, msc_flatSegs]
+        have := msc_dropLast_le q.1.1 q.1.2 segs
+        omega
+      exact Nat.le_trans h2 h1
+    by_cases hse : segs = []
+    · simp only [rT, hse, if_true] at hq
+      have := h.recv.t q (by rw [← heT]; exact hq)
+      omega
+    · simp only [rT, hse, if_false] at hq
+      have := noteAll_bound pieces a'.recvT (fun k => handled (sinceTick .timingTick x.hist) k.2)
+        (fun p hp => h.recv.t p (by rw [← heT]; exact hp)) q hq
+      omega
+  · intro q hq
+    rw [hhist, sinceTick_marks hmarks _ (by intro t b e; cases e), handled_append]
+    have hmsc : msc q.1.1 q.1.2 pieces.flatten ≤ handled mk q.1.2 := by
+      have h1 := hbd q.1.1 q.1.2
+      simp only [zeroX, Nat.add_zero] at h1
+      have h2 : msc q.1.1 q.1.2 pieces.flatten ≤ msc q.1.1 q.1.2 ext := by
+        rw [hext]
+        simp only [pieces, List.flatten_cons, msc_append, msc_flatSegs]
+        have := msc_dropLast_le q.1.1 q.1.2 segs
+        omega
+      exact Nat.le_trans h2 h1
+    by_cases hse : segs = []
+    · simp only [rR, hse, if_true] at hq
+      have := h.recv.r q (by rw [← heR]; exact hq)
+      omega
+    · simp only [rR, hse, if_false] at hq
+      have := noteAll_bound pieces a'.recvR (fun k => handled (sinceTick .trafficTick x.hist) k.2)
+        (fun p hp => h.recv.r p (by rw [← heR]; exact hp)) q hq
+      omega
+
+/-- **one round keeps the invariant**: the model plays round `r` (its log starting afresh, as the driver's `modelRun`
+    does), the Spec judges the model's own events of that round -/
+theorem round_inv {x : State} {a : A} (h : RInv cfg x a) (hna : MgrNotAll cfg) (hord : OrderGood cfg) (r : Round)
+    (hr : RoundOK r) : RInv cfg (stepR cfg x r) (round cfg a r (stepR cfg x r).out) := by
+  obtain ⟨x2, T, a', rT, rR, lastIO, hP, hS2, hrT, hrR⟩ := round_pre ok hfuel h hna hord r hr
+  obtain ⟨hs, hrv⟩ := tail_sim hP.inv2.stat.idle hS2 T hP.ev rT rR hrT hrR
+  have hne : (round cfg a r (stepR cfg x r).out).noErr =
+      (tailU cfg { a' with mods := depMods a'.mods (closes T), recvT := rT, recvR := rR }).noErr := by
+    rw [round_eq, tail_noErr]; exact tailU_noErr_congr cfg hP.pre
+  rw [hP.step] at hne ⊢
+  exact ⟨⟨top_ticks ok hfuel hP.inv2.top, ticks_K cfg hP.inv2.k, ticks_statInv hP.inv2.stat⟩,
+    sim_of_noErr hne hs, recvOK_of_noErr hne hrv⟩
 
 end withcfg
 
